@@ -226,7 +226,7 @@ def iban_shard(args):
         # a family of nationally valid bodies (reference digits): every error raised for them with
         # national validation on would name a defect that is not present
         from . import c06
-        for body in c06.bodies(country, tier, ["distinct"]):
+        for body in c06.bodies(country, tier, ["distinct", "min"]):
             good = nat.with_check(country, body)
             if good is None:
                 continue
